@@ -212,7 +212,7 @@ impl Monitor for C05 {
 		vec!["spec.rs Game Start/End offsets are the oracle".into(), "bytes the reader validates are drawn from their valid sets (rejecting other values is correct and exercised by C06)".into()]
 	}
 	fn n_cases(&self, ctx: &Ctx) -> usize {
-		ctx.tier.pick(3000, 10 * 625 * 2)
+		ctx.tier.pick(20000, 10 * 625 * 2 * 8)
 	}
 	fn min_classes(&self, tier: Tier) -> usize {
 		tier.pick(100, 300)
@@ -224,6 +224,7 @@ impl Monitor for C05 {
 		let mut out = CaseOut::default();
 		let mut rng = Rng::derive(ctx.seed, 0xC05 ^ (idx as u64) << 4);
 		let (class, pattern, teams) = match ctx.tier {
+			// every (class, pattern, teams) combination 8 times with different random fills
 			Tier::Thorough => (idx % 10, (idx / 10) % 625, (idx / 6250) % 2 == 1),
 			Tier::Quick => (idx % 10, rng.below(625), rng.chance(1, 2)),
 		};
